@@ -365,7 +365,8 @@ Qed.
 Definition growing (o : op) : Prop :=
   match o with
   | OAlloc _ _ _ _ _ | OGrow _ _ _ _ _ _ | OFill _ _ | OCheckpoint _ | OStats _
-  | OPrepare _ _ _ _ _ | OWriteRaw _ _ _ | OCommit _ _ _ _ _ _ _ _ | OAlignPush _ _ | OClaim _ | OUnclaim => True
+  | OPrepare _ _ _ _ _ | OWriteRaw _ _ _ | OCommit _ _ _ _ _ _ _ _ | OAlignPush _ _ | OAlignPop _ | OReserve _ _
+  | OClaim _ | OUnclaim => True
   | _ => False
   end.
 
@@ -407,6 +408,22 @@ Proof.
   - (* OFill *)
     destruct (find_block s b); apply Hsame; reflexivity.
   - (* OCheckpoint *) apply Hsame; reflexivity.
+  - (* OReserve: chunks may be appended behind the last one, the current chunk pointer stays *)
+    destruct (negb (is_top s h)); [apply Hsame; reflexivity|].
+    rewrite Ect, Enit.
+    match goal with |- context [if ?b then _ else _] => destruct b end; [apply Hsame; reflexivity|].
+    match goal with |- context [if ?b then _ else _] => destruct b end; [apply Hsame; reflexivity|].
+    match goal with |- context [grow_arena c s ?a ?b ?r0] => destruct (grow_arena c s a b r0) as [s1 oe] eqn:Eg end.
+    assert (A : adv c i s0 (upd_cur s1 (Cur i))).
+    { unfold grow_arena in Eg. destruct (new_chunk_size c _ _ 1) as [n0|]; [|injection Eg as <- _; apply Hsame; [reflexivity|exact (eq_sym Ec)]].
+      destruct r as [[addr g]|]; injection Eg as <- _.
+      - pose proof (nth_error_some_lt _ _ _ Eni) as Hi.
+        split; [intros k Hk; cbn [chunks upd_cur upd_chunks log_event]; apply nth_error_app1; change (chunks s) with (chunks s0); lia|]. split.
+        + exists chi, chi. split; [exact Eni|]. split; [cbn [chunks upd_cur upd_chunks log_event]; rewrite nth_error_app1 by (change (chunks s) with (chunks s0); lia); exact Eni|].
+          split; [apply same_geom_refl|lia].
+        + exists i. split; [reflexivity|lia].
+      - apply Hsame; [reflexivity|exact (eq_sym Ec)]. }
+    destruct oe; exact A.
   - (* OStats *) destruct (is_top s h); apply Hsame; reflexivity.
   - (* OAlignPush *)
     cbn [op_ok2] in Hok. pose proof (min_align_pos _ Hok) as Hnp.
@@ -417,6 +434,16 @@ Proof.
       * apply up_align_ge. exact Hnp.
       * apply down_align_le. exact Hnp.
     + apply Hsame; reflexivity.
+  - (* OAlignPop: leaving an aligned region re-aligns forward *)
+    cbn [op_ok2] in Hok. destruct (aligns s) as [|inner [|outer rest]] eqn:Ea; try (apply Hsame; reflexivity).
+    change (aligns s0) with (aligns s) in Hok. rewrite Ea in Hok. destruct Hok as [Hv _]. pose proof (min_align_pos _ Hv) as Hop.
+    destruct (realign && (inner <? outer)); [|apply Hsame; reflexivity].
+    assert (Ecc : cur_chunk (upd_aligns s (outer :: rest)) = Some chi) by (unfold cur_chunk; cbn [cur upd_aligns chunks]; rewrite Ect; exact Eni).
+    rewrite Ecc. cbn [fst].
+    apply (adv_ext c i s0 (set_cur_pos s (align_posZ (up c) outer (cpos chi)))).
+    + unfold set_cur_pos. cbn [cur upd_aligns chunks]. rewrite Ect, Enit. reflexivity.
+    + unfold set_cur_pos. cbn [cur upd_aligns chunks]. rewrite Ect, Enit. reflexivity.
+    + apply (adv_set_cur_pos c s i chi _ Ect Eni). unfold align_posZ. destruct (up c); [apply up_align_ge|apply down_align_le]; exact Hop.
   - (* OPrepare *)
     destruct (negb (is_top s h)); [apply Hsame; reflexivity|].
     destruct (IMAX <? es * cap + (ea - 1)); [apply Hsame; reflexivity|].
